@@ -83,6 +83,7 @@ class Executor(object):
         self.events = []
         self.assume_feasible = False
         self.debug_merge = None
+        self.candidates = []
         self.debug_ic = bool(__import__('os').environ.get('DEBUG_IC'))
 
     # ---------------------------------------------------------------- memory
@@ -295,6 +296,9 @@ class Executor(object):
             r2 = s.check()
             if r2 == z3.unsat:
                 r = canon(c.as_long(), w, sg)
+            elif r2 == z3.sat and len(self.candidates) < 2:
+                # a second value is possible: keep the witness as a candidate input for native replay
+                self.candidates.append(s.model())
         if self.debug_ic:
             print('implied_const', r1, r2, r, '%.2fs' % (time.time() - t0))
         self.feas_cache[key] = r
